@@ -3,6 +3,7 @@
 Simulated dimension: filters are evaluated in the middle of seeded add/remove histories, under many
 seeds of the model's generator and with ambient perturbation between picks; reachability of every
 candidate is a bounded-liveness check (every member must be hit within 250*k reseeded picks)."""
+import copy
 import random
 
 import numpy
@@ -27,7 +28,7 @@ COMPONENTS = {"real": ["ECAgent.Core.Environment.get_agents / get_random_agent /
                        "Agent.has_component", "Model.random", "SpaceWorld (some runs)"],
               "stub": ["component classes and agents are harness-defined; global random / numpy.random are perturbed"]}
 PROBES = ["tag_zero_filter", "template_and_tag", "nobody_matches", "partial_template_match", "returned_list_mutated",
-          "reach_all_members", "same_seed_repeat", "type_nobody_has", "spatial_world", "default_tag_agent", "retag_while_resident", "model_lifecycle_op", "subclass_component_only", "agent_is_an_environment", "ops_from_inside_a_timestep", "agent_class_with_class_components", "removal_refused_half_way"]
+          "reach_all_members", "same_seed_repeat", "type_nobody_has", "spatial_world", "default_tag_agent", "retag_while_resident", "model_lifecycle_op", "subclass_component_only", "agent_is_an_environment", "ops_from_inside_a_timestep", "agent_class_with_class_components", "removal_refused_half_way", "history_continued_on_a_copy"]
 TECHNIQUE = "deterministic simulation: filter queries inside seeded add/remove histories vs a list-comprehension reference; bounded reachability over reseeded model generators; ambient RNG perturbation between picks"
 LEVEL_TEXT = ("Seeded search over populations, histories, templates and tag filters; every listing must equal the reference filter "
               "(identity, joining order, fresh list), every pick must be a member, every shuffle a permutation, nothing may "
@@ -45,8 +46,8 @@ class T1(Component):
     pass
 
 
-class T2(Component):
-    pass
+class T2(__import__("props.common", fromlist=["x"]).ChaosMixin, Component):
+    """A component class with special methods of its own (callable, iterable, ordered, falsy, odd repr ...)."""
 
 
 class T3(Component):
@@ -127,6 +128,8 @@ def generate(rng, tier):
         ops.insert(j_, {"op": "leave_step"})
         ops.insert(i_, {"op": "enter_step"})
     out = {"pool": pool, "ops": ops, "seed": rng.randint(0, 10 ** 6), "world": rng.choice(["plain", "plain", "plain", "space"])}
+    if rng.random() < 0.12:
+        ops.insert(rng.randint(0, len(ops)), {"op": "branch"})      # the history continues on a deep copy of model and environment
     if rng.random() < 0.2:
         for p_ in pool:
             if rng.random() < 0.4:
@@ -235,6 +238,13 @@ def execute(sc, ctx):
             residents.remove(hit[0])
             ctx.event("remove", spec["id"])
             shape.append(["rm", len(residents)])
+            continue
+        if kind == "branch":
+            if not ctx.in_step:
+                m, env, residents, objs = copy.deepcopy((m, env, residents, objs))
+                last_lists = []
+                ctx.fault("restart.continue_on_copy")
+                ctx.probe("history_continued_on_a_copy")
             continue
         if kind == "botched_remove":
             spec = pool[op["k"] % len(pool)]
